@@ -71,7 +71,9 @@ def marshalStep (pj : PJ) (s : MState) : Res (MState ⊕ MState) := do
     else .ok s)
   let i := s.i
   let t := i.t
-  let cont (s : MState) : Res (MState ⊕ MState) := do
+  -- `done` = a complete value has just been written (the `valueDone` flag of the Go code)
+  let cont (s : MState) (done : Bool := true) : Res (MState ⊕ MState) := do
+    if done ∧ s.stack.size == 1 then .ok (.inr s) else
     match ← marshalPost pj s with
     | none => .ok (.inr s)
     | some s' => .ok (.inl s')
@@ -84,7 +86,7 @@ def marshalStep (pj : PJ) (s : MState) : Res (MState ⊕ MState) := do
         if l == stackRoot then do
           let nt ← i.peekNextTag pj
           let dst := if nt != tagEnd then s.dst.push 10 else s.dst
-          cont { s with dst := dst, stack := s.stack.pop }
+          cont { s with dst := dst, stack := s.stack.pop } false
         else if l == stackNone then .ok (.inr s)
         else .error .generic
     else do
@@ -109,13 +111,13 @@ def marshalStep (pj : PJ) (s : MState) : Res (MState ⊕ MState) := do
   else if t == tagBoolTrue then cont { s with dst := s.dst ++ "true".toUTF8.data }
   else if t == tagBoolFalse then cont { s with dst := s.dst ++ "false".toUTF8.data }
   else if t == tagObjectStart then do
-    let (i, _) ← i.advanceInto pj
+    let (i, _) ← ({ i with addNext := 0 } : Iter).advanceInto pj
     .ok (.inl { i := i, dst := s.dst.push 123, stack := s.stack.push stackObject })
   else if t == tagObjectEnd then
     if s.stack.back! != stackObject then .error .generic
     else cont { s with dst := s.dst.push 125, stack := s.stack.pop }
   else if t == tagArrayStart then do
-    let (i, _) ← i.advanceInto pj
+    let (i, _) ← ({ i with addNext := 0 } : Iter).advanceInto pj
     .ok (.inl { i := i, dst := s.dst.push 91, stack := s.stack.push stackArray })
   else if t == tagArrayEnd then
     if s.stack.back! != stackArray then .error .generic
@@ -125,7 +127,7 @@ def marshalStep (pj : PJ) (s : MState) : Res (MState ⊕ MState) := do
     if nt == tagEnd then .error .generic else do
     let (i, _) ← i.advanceInto pj
     .ok (.inl { s with i := i })
-  else cont s
+  else cont s false
 
 def marshalLoop (pj : PJ) (s : MState) : (fuel : Nat) → Res MState
   | 0 => .diverge
